@@ -317,6 +317,7 @@ pub fn drive_c08(t: &Tier, m: &mut Matrix, sink: &mut Sink) {
 
 pub fn drive_c09(t: &Tier, m: &mut Matrix, sink: &mut Sink) {
     let mut rng = Rng::new(t.seed ^ 0xC09);
+    m.ny = t.q(8, 16); // comparisons are cheap: many operand kinds per subject kind (all ordered type pairs come up)
     let xs = pool(t, &mut rng, t.q(193, 257), t.quick, t.q(1, 6));
     let ops = ["eq", "ne", "lt", "le", "gt", "ge", "pcmp"];
     for x in &xs {
@@ -330,6 +331,12 @@ pub fn drive_c09(t: &Tier, m: &mut Matrix, sink: &mut Sink) {
         }
         let sig = n - x.iter().rev().take_while(|b| **b == 0).count();
         ys.push(x[..sig].to_vec());
+        // the low part only, at word-sized lengths: the values differ exactly in the longer operand's high part
+        for cut in [8usize, 16, 32, 64, 128, n / 2] {
+            if cut < n {
+                ys.push(x[..cut].to_vec());
+            }
+        }
         // one bit different, at the bottom, at the top, at a word boundary
         for p in [0usize, n.saturating_sub(1), 63, 64, 7, 8] {
             if p < n {
@@ -340,7 +347,7 @@ pub fn drive_c09(t: &Tier, m: &mut Matrix, sink: &mut Sink) {
         }
         ys.push(operand_for(&mut rng, n, 257, false));
         ys.push(operand_for(&mut rng, n, 257, false));
-        for y in sample(&mut rng, &ys, t.q(5, 12)) {
+        for y in sample(&mut rng, &ys, t.q(7, 19)) {
             let op = *rng.pick(&ops);
             sink.emit(m.run(&Case::new(op, x.clone()).y(YSpec::Bits(y.clone()))));
             // and the reverse operand order with another operator
